@@ -722,6 +722,28 @@ def d36():
 """),
 ])
 
+
+@fix('D18b', "fix: assignments to array elements and structure members have a value\n\nSTORE_ARRAY and STORE_MEMBER did not define their own reference, so using such an\nassignment as a value (`c = a[0] = 1;`, `x = s.f = 2;`) raised KeyError in the VM.")
+def d18b():
+    patch('nsl/VM.py', [
+("""                    localScope[instruction.Variable.Reference][
+                        instruction.Member
+                    ] = localScope[instruction.Store.Reference]""",
+"""                    localScope[instruction.Variable.Reference][
+                        instruction.Member
+                    ] = localScope[instruction.Store.Reference]
+                    # The value of an assignment is the value that was stored
+                    localScope[ref] = localScope[instruction.Store.Reference]"""),
+("""                    localScope[array][
+                        localScope[instruction.Index.Reference]
+                    ] = var""",
+"""                    localScope[array][
+                        localScope[instruction.Index.Reference]
+                    ] = var
+                    # The value of an assignment is the value that was stored
+                    localScope[ref] = var"""),
+])
+
 if __name__ == '__main__':
     name = sys.argv[1]
     msg, f = FIXES[name]
